@@ -603,7 +603,7 @@ func (c *Client) processSuback(suback *packet.Suback) error {
 		for _, code := range suback.ReturnCodes {
 			if code == packet.QOSFailure {
 				subscribeFuture.Cancel(nil)
-				return ErrFailedSubscription
+				return c.die(ErrFailedSubscription, true)
 			}
 		}
 	}
